@@ -331,7 +331,7 @@ func cmdSweep(args []string) int {
 	var mu sync.Mutex
 	var unexpectedTimeouts int32
 	var aborted atomic.Bool
-	var notRun int32
+	var notRun, done int32
 	record := func(c Case, o outcome) {
 		mu.Lock()
 		defer mu.Unlock()
@@ -358,6 +358,7 @@ func cmdSweep(args []string) int {
 						}
 					}
 					record(c, o)
+					atomic.AddInt32(&done, 1)
 				}
 			}()
 		}
@@ -377,12 +378,26 @@ func cmdSweep(args []string) int {
 	if heavyWorkers < 1 {
 		heavyWorkers = 1
 	}
+	stopProgress := make(chan struct{})
+	go func() {
+		tick := time.NewTicker(60 * time.Second)
+		defer tick.Stop()
+		for {
+			select {
+			case <-stopProgress:
+				return
+			case <-tick.C:
+				fmt.Fprintf(os.Stderr, "lexref: %d/%d cases after %.0fs\n", atomic.LoadInt32(&done), len(todo), time.Since(t0).Seconds())
+			}
+		}
+	}()
 	var wg sync.WaitGroup
 	// Cases on which gocc is predicted to hang run in their own, smaller pool
 	// (each burns the full timeout and a few hundred MB), concurrently with the rest.
 	pool(heavy, heavyWorkers, &wg)
 	pool(light, *workers, &wg)
 	wg.Wait()
+	close(stopProgress)
 
 	if aborted.Load() {
 		res.Aborted = fmt.Sprintf("more than %d timeouts outside the nullable-body family; remaining cases not run", *maxTimeouts)
